@@ -481,6 +481,8 @@ func outLast() any                               { return nil }
 //@ requires is[*ast.RegexNode](node)
 //@ ensures [C12] nonstring: !is[string](value) ==> r0 == predUnknown && r1 == nil
 //@ ensures [C12] string: is[string](value) ==> r0 != predUnknown && r1 == nil
+//@ ensures [C12] decided-by-the-compiled-pattern: is[string](value) ==> ncalls(rn.Regexp) == 1
+//@ atcall MatchString assert [C12] gos-regexp-on-the-item: arg_s == as[string](value)
 
 // ---------------------------------------------------------------------------
 // boolean.go, predicate.go: three-valued logic
